@@ -17,13 +17,18 @@ static const struct hcase H[] = {
   {"yescrypt", "pw", "$y$j75$n34PoBLMgF5"},
   {"yescrypt", LONGP, "$y$j75$n34PoBLMgF5$"},
   {"yescrypt", "pw", "$y$j75$n34PoBLMgF5$0123456789012345678901234567890123456789012"},
-  {"yescrypt", "x", "$y$/6/$AbCdEfGh"},
+  {"yescrypt", "x", "$y$/6/$C3qEg/"},
+  {"yescrypt", "classic flavor", "$y$.6/$C3qEg/"},
+  {"yescrypt", "with p and t", "$y$j6/..$C3qEg/$"},
+  {"yescrypt", LONGP, "$y$j9T$n34PoBLMgF5"},
   {"gost_yescrypt", "pw", "$gy$j75$n34PoBLMgF5"},
   {"gost_yescrypt", LONGP, "$gy$j75$n34PoBLMgF5$"},
-  {"gost_yescrypt", "x", "$gy$/6/$AbCdEfGh"},
+  {"gost_yescrypt", "x", "$gy$/6/$C3qEg/"},
+  {"gost_yescrypt", "classic flavor", "$gy$.6/$C3qEg/"},
   {"scrypt", "pw", "$7$40..../....salt"},
   {"scrypt", LONGP, "$7$40..../....salt$"},
   {"scrypt", "x", "$7$5/..../....x$y"},
+  {"scrypt", "p=2", "$7$4/....0....salt$"},
   {"bcrypt", "pw", "$2b$04$abcdefghijklmnopqrstuu"},
   {"bcrypt", LONGP, "$2b$04$UBVLHeMpJ/QQCv3XqJx8zO"},
   {"bcrypt", "\xff\xa3" "345", "$2b$04$abcdefghijklmnopqrstuu"},
